@@ -311,6 +311,38 @@ class Ctx:
             self.log("audit: " + b)
         return res
 
+    def coqchk(self, pid=None, timeout=1500):
+        """Thorough tier: re-check the compiled closure of Props/<pid>.vo with the independent checker and
+        audit the axioms it reports.  Returns True if fine."""
+        pid = pid or self.pid
+        with Lock('coq'):
+            rc, out = run(['coqchk', '-o', '-silent', '-Q', '.', 'RV', 'RV.Props.%s' % pid], cwd=COQ, timeout=timeout)
+        ok = rc == 0
+        m = re.search(r"\* Axioms:(.*?)\n\s*\n\* Constants/Inductives relying on type-in-type:(.*?)\n\s*\n"
+                      r"\* Constants/Inductives relying on unsafe \(co\)fixpoints:(.*?)\n\s*\n"
+                      r"\* Inductives whose positivity is assumed:(.*?)\n", out, re.S)
+        axioms = []
+        if not m:
+            ok = False
+        else:
+            ax = m.group(1).strip()
+            if ax != '<none>':
+                axioms = [a.strip() for a in ax.splitlines() if a.strip()]
+                for a in axioms:
+                    short = a.split()[0]
+                    if not any(short.endswith(x) or x.endswith(short) for x in ALLOWED_AXIOMS) \
+                            and not any(x.split('.')[-1] == short.split('.')[-1] for x in ALLOWED_AXIOMS):
+                        ok = False
+                        self.log("coqchk: non-allowlisted axiom %s" % a)
+            for g in (2, 3, 4):
+                if m.group(g).strip() != '<none>':
+                    ok = False
+                    self.log("coqchk: unsafe feature in use: %s" % m.group(g).strip())
+        self.cov['coqchk'] = dict(ok=ok, axioms=axioms)
+        if not ok:
+            self.log("coqchk output tail:\n" + out[-1500:])
+        return ok
+
     def coq_eval(self, name, body, imports, timeout=600):
         """Evaluate `body` (vernacular) in a scratch file; returns (rc, stdout)."""
         path = os.path.join(self.workdir, name + '.v')
